@@ -75,6 +75,7 @@ CONSTANTS WsSeparates,          \* strict['whitespace-separates-paragraphs'] (de
           MaxPara, MaxFields, MaxCont, MaxTotal,   \* bounds of the bounded configuration
           ShapeMode,            \* 0: every value shape; 1: only "v" and "<empty>+MaxCont lines" (wide documents)
           ArmorHdrs,            \* set of numbers of armor header lines tried (subset of 0..2)
+          ArmorMaxFields,       \* ArmorInvariant / GpgMvAgrees are evaluated for single paragraphs of at most so many fields
           BigSel,               \* indexes into BigTable (size-stress configuration)
           SigBools,             \* values tried for "blank line / armor header after BEGIN PGP SIGNATURE"
           Emit
@@ -99,6 +100,7 @@ EndLn     == Ln("PgpEnd", NoText, NoText, FALSE)
 ----------------------------------------------------------------------------
 (* reader state *)
 RInit(raw) == [raw |-> raw, stopped |-> FALSE,
+               ws |-> WsSeparates,
                filt |-> FALSE, want |-> {},     \* fields=...: only names in want are kept (filt = FALSE: all)
                done |-> <<>>,        \* completed paragraphs (sequences of [k, v])
                donePay |-> <<>>,     \* their payloads (only read by GpgMvParse)
@@ -112,7 +114,8 @@ Commit(fs, k, v) == IF \E i \in 1..Len(fs) : fs[i].k = k
                     ELSE Append(fs, [k |-> k, v |-> v])
 Flush(s) == IF s.open THEN Commit(s.fields, s.curkey, s.content) ELSE s.fields
 
-IsBlankSep(c) == c = "Blank" \/ (WsSeparates /\ c = "WsOnly")
+\* s.ws = the strictness flag of this reader (the constant WsSeparates unless a call says otherwise)
+IsBlankSep(s, c) == c = "Blank" \/ (s.ws /\ c = "WsOnly")
 IsPgp(c)      == c \in {"PgpBeginMsg", "PgpBeginSig", "PgpEnd"}
 ContLike(c)   == c \in {"Cont", "WsOnly"}   \* WsOnly reaches the payload only when ~WsSeparates
 
@@ -127,7 +130,7 @@ Yielded(s, c)  == ~s.stopped /\ ~UselessComment(s, c) /\ ~UselessBlank(s, c)
 InitialBlank(s, c) == s.first /\ c \in {"Blank", "WsOnly"} /\ LeadingBlankSkipped
 Active(s, c)   == Yielded(s, c) /\ ~InitialBlank(s, c)
 Plain(s, c)    == Active(s, c) /\ ~IsPgp(c)
-Payload(s, c)  == Plain(s, c) /\ s.gst = "SAFE" /\ ~IsBlankSep(c)
+Payload(s, c)  == Plain(s, c) /\ s.gst = "SAFE" /\ ~IsBlankSep(s, c)
 
 G(b, s, c) ==
   CASE b = "Stopped"            -> s.stopped
@@ -136,15 +139,15 @@ G(b, s, c) ==
     [] b = "SkipInitialBlank"   -> Yielded(s, c) /\ InitialBlank(s, c)
     [] b = "PgpBegin"           -> Active(s, c) /\ c \in {"PgpBeginMsg", "PgpBeginSig"}
     [] b = "PgpEnd"             -> Active(s, c) /\ c = "PgpEnd"
-    [] b = "BlankEndsParagraph" -> Plain(s, c) /\ s.gst = "SAFE" /\ IsBlankSep(c) /\ ~s.pre
-    [] b = "BlankInArmoredBody" -> Plain(s, c) /\ s.gst = "SAFE" /\ IsBlankSep(c) /\ s.pre
+    [] b = "BlankEndsParagraph" -> Plain(s, c) /\ s.gst = "SAFE" /\ IsBlankSep(s, c) /\ ~s.pre
+    [] b = "BlankInArmoredBody" -> Plain(s, c) /\ s.gst = "SAFE" /\ IsBlankSep(s, c) /\ s.pre
     [] b = "FieldSingle"        -> Payload(s, c) /\ c \in {"Single", "ArmorHeader"}
     [] b = "FieldMulti"         -> Payload(s, c) /\ c = "Multi"
     [] b = "ContAppend"         -> Payload(s, c) /\ ContLike(c) /\ s.open
     [] b = "ContOrphan"         -> Payload(s, c) /\ ContLike(c) /\ ~s.open
     [] b = "Ignored"            -> Payload(s, c) /\ c \in {"Junk", "Comment"}
-    [] b = "ArmorHeadersEnd"    -> Plain(s, c) /\ s.gst = "MSG" /\ IsBlankSep(c)
-    [] b = "ArmorHeaderLine"    -> Plain(s, c) /\ s.gst = "MSG" /\ ~IsBlankSep(c)
+    [] b = "ArmorHeadersEnd"    -> Plain(s, c) /\ s.gst = "MSG" /\ IsBlankSep(s, c)
+    [] b = "ArmorHeaderLine"    -> Plain(s, c) /\ s.gst = "MSG" /\ ~IsBlankSep(s, c)
     [] b = "SignatureLine"      -> Plain(s, c) /\ s.gst = "SIG"
 
 \* ---- the same decision as a function (the order of the tests in the code)
@@ -156,18 +159,18 @@ BranchOf(s, c) ==
   ELSE IF c \in {"PgpBeginMsg", "PgpBeginSig"} THEN "PgpBegin"
   ELSE IF c = "PgpEnd" THEN "PgpEnd"
   ELSE IF s.gst = "SAFE" THEN
-         IF IsBlankSep(c) THEN (IF s.pre THEN "BlankInArmoredBody" ELSE "BlankEndsParagraph")
+         IF IsBlankSep(s, c) THEN (IF s.pre THEN "BlankInArmoredBody" ELSE "BlankEndsParagraph")
          ELSE IF c \in {"Single", "ArmorHeader"} THEN "FieldSingle"
          ELSE IF c = "Multi" THEN "FieldMulti"
          ELSE IF ContLike(c) THEN (IF s.open THEN "ContAppend" ELSE "ContOrphan")
          ELSE "Ignored"
-  ELSE IF s.gst = "MSG" THEN (IF IsBlankSep(c) THEN "ArmorHeadersEnd" ELSE "ArmorHeaderLine")
+  ELSE IF s.gst = "MSG" THEN (IF IsBlankSep(s, c) THEN "ArmorHeadersEnd" ELSE "ArmorHeaderLine")
   ELSE "SignatureLine"
 
 \* ---- effects
 \* the paragraph is finished: IterParagraphs yields it and starts a new reader, or stops when it is empty
 EndPara(s) == LET f == Flush(s) IN
-  [RInit(s.raw) EXCEPT !.filt = s.filt, !.want = s.want,
+  [RInit(s.raw) EXCEPT !.filt = s.filt, !.want = s.want, !.ws = s.ws,
                        !.done = IF f = <<>> THEN s.done ELSE Append(s.done, f),
                        !.donePay = Append(s.donePay, s.payl),
                        !.stopped = (f = <<>>)]
@@ -220,12 +223,17 @@ Finish(s) == IF s.stopped THEN s.done
              ELSE LET f == Flush(s) IN IF f = <<>> THEN s.done ELSE Append(s.done, f)
 
 ParseW(ls, W) == Finish(RunRange([RInit(FALSE) EXCEPT !.filt = TRUE, !.want = W], ls, 1, Len(ls)))   \* fields=W
+ParseS(ls, ws) == Finish(RunRange([RInit(FALSE) EXCEPT !.ws = ws], ls, 1, Len(ls)))     \* strict={...: ws}
 Parse(ls)    == Finish(Run(FALSE, ls))                       \* list(Deb822.iter_paragraphs(x))
 ParseOne(ls) == LET r == Parse(ls) IN IF r = <<>> THEN <<>> ELSE r[1]    \* Deb822(x)
 
 \* Dsc / Changes / BuildInfo given a list or a file: raw split first, then the ordinary reader
-FirstPayload(ls) == LET s == Run(TRUE, ls) IN IF s.donePay # <<>> THEN s.donePay[1] ELSE s.payl
+FirstPayloadS(ls, ws) == LET s == RunRange([RInit(TRUE) EXCEPT !.ws = ws], ls, 1, Len(ls))
+                         IN IF s.donePay # <<>> THEN s.donePay[1] ELSE s.payl
+FirstPayload(ls) == FirstPayloadS(ls, WsSeparates)
 GpgMvParse(ls)   == ParseOne(FirstPayload(ls))
+\* both passes with the same flag
+GpgMvParseS(ls, ws) == LET r == ParseS(FirstPayloadS(ls, ws), ws) IN IF r = <<>> THEN <<>> ELSE r[1]
 
 ----------------------------------------------------------------------------
 (* dump() and clearsign armor *)
@@ -287,7 +295,7 @@ EofRule      == /\ rd.pay <=> (rd.payl # <<>>)
                 /\ ~rd.pay => (rd.fields = <<>> /\ ~rd.open)
                 /\ rd.stopped => (~rd.pay /\ rd.atBeg /\ rd.first /\ rd.gst = "SAFE")
 \* the header machine: armor lines never reach the payload, payload lines are never blank separators
-PayloadClean == \A i \in 1..Len(rd.payl) : ~IsPgp(rd.payl[i].c) /\ ~IsBlankSep(rd.payl[i].c)
+PayloadClean == \A i \in 1..Len(rd.payl) : ~IsPgp(rd.payl[i].c) /\ ~IsBlankSep(rd, rd.payl[i].c)
                                            /\ (~rd.raw => rd.payl[i].c # "Comment")
 NoEmptyDone  == \A i \in 1..Len(rd.done) : rd.done[i] # <<>>
 StoppedAbsorbing == [][rd.stopped => rd' = rd]_vars
@@ -326,7 +334,7 @@ LeadingBlankInvariant == \A pre \in Leads : Parse(pre \o D) = P /\ Parse(pre \o 
 TrailingInvariant     == \A post \in Leads : P # <<>> => Parse(D \o post) = P
 SeparatorInvariant    == \A sep \in Seps : Parse(DumpSep(P, sep)) = P
 ArmorInvariant ==
-    Len(P) = 1 => \A a \in ArmorShapes : LET A == Armor(D, a) IN
+    (Len(P) = 1 /\ Len(P[1]) <= ArmorMaxFields) => \A a \in ArmorShapes : LET A == Armor(D, a) IN
         /\ Parse(A) = P
         /\ ParseOne(A) = P[1]
         /\ FirstPayload(A) = D             \* Deb822.gpg_stripped_paragraph / split_gpg_and_payload()[1]
@@ -341,7 +349,7 @@ CommentThenBlank(pre) == \E i \in 1..Len(pre) : \E j \in (i + 1)..Len(pre) :
                             pre[i].c = "Comment" /\ pre[j].c \in {"Blank", "WsOnly"}
 GpgLeads == IF GpgMvLeadOK THEN {pre \in Leads : ~CommentThenBlank(pre)} ELSE Leads
 GpgMvAgrees ==
-    Len(P) = 1 =>
+    (Len(P) = 1 /\ Len(P[1]) <= ArmorMaxFields) =>
        /\ \A pre \in GpgLeads : GpgMvParse(pre \o D) = P[1]
        /\ \A i \in 0..Len(D) : GpgMvParse(InsertAt(D, i, CommentLn)) = P[1]
        /\ \A a \in ArmorShapes : LET A == Armor(D, a) IN
@@ -383,13 +391,14 @@ FilterDoc(Q, W) == [p \in 1..Len(Q) |-> SelectSeq(Q[p], LAMBDA fl : fl.k \in W)]
 FieldsInvariant == \A W \in SUBSET {1, 2, 3} :
                       (\A p \in 1..Len(P) : \E f \in 1..Len(P[p]) : P[p][f].k \in W) => ParseW(D, W) = FilterDoc(P, W)
 \* a white-space-only line (>= 2 characters, token 888) put at position i: what the reader returns
-\* under the strictness flag of this configuration (emitted for both values of WsSeparates)
+\* under either value of the strictness flag
 WsLnT == Ln("WsOnly", NoText, 888, FALSE)
-EmitWs == Emit => PrintT(<<"WSAT", ToJson([shape |-> doc, np |-> Len(doc),
-                                          at |-> [i \in 1..(Len(D) + 1) |-> Parse(InsertAt(D, i - 1, WsLnT))],
-                                          gat |-> IF Len(doc) = 1      \* the same through the Dsc / Changes pre-pass
-                                                  THEN [i \in 1..(Len(D) + 1) |-> GpgMvParse(InsertAt(D, i - 1, WsLnT))]
-                                                  ELSE <<>>])>>)
+WsAt(i, ws)  == ParseS(InsertAt(D, i - 1, WsLnT), ws)
+WsGAt(i, ws) == GpgMvParseS(InsertAt(D, i - 1, WsLnT), ws)
+WsRec(ws) == [at |-> [i \in 1..(Len(D) + 1) |-> WsAt(i, ws)],
+              gat |-> IF Len(doc) = 1 THEN [i \in 1..(Len(D) + 1) |-> WsGAt(i, ws)] ELSE <<>>]   \* Dsc / Changes pre-pass
+EmitWs == (Emit /\ NFields(doc) <= 3) =>
+             PrintT(<<"WSAT", ToJson([shape |-> doc, np |-> Len(doc), ws |-> WsRec(TRUE), nows |-> WsRec(FALSE)])>>)
 
 \* one CASE line per document: the shape, dump(P) and what the reader must return for it
 EmitCase == Emit => PrintT(<<"CASE", ToJson([shape |-> doc, doc |-> P, lines |-> D, parse |-> Parse(D),
